@@ -611,7 +611,7 @@ func (w *World) checkProperty(p, tier string, seed int, g *generated, reg *Regis
 			if tier == "thorough" {
 				retryT = timeout * 2
 			}
-			rr := runAll(retry[start:end], outDir, retryT, 4, []string{"z3-new", "z3", "cvc5", "cvc5-enum"}, false)
+			rr := runAll(retry[start:end], outDir, retryT, 2, []string{"z3-new", "z3", "cvc5", "cvc5-enum", "z3-new-s2", "z3-new-s5", "z3-s3"}, false)
 			for _, r := range rr {
 				oc := byName[r.o.Name]
 				if r.v.Status == "unsat" {
